@@ -770,6 +770,9 @@ func TestRun(t *testing.T) {
 				}
 			}
 			h.Emit(op, obs)
+			if strings.HasPrefix(op, "reset") || strings.HasPrefix(op, "settle") {
+				h.Flush() // if the code under test deadlocks / dies later, what was observed so far is still judged
+			}
 		}
 		if ops := hx.ReplayOps(); ops != nil {
 			for _, op := range ops {
